@@ -96,6 +96,30 @@ Fixpoint contribs_eqb (a b : list contrib) : bool :=
   | _, _ => false
   end.
 
+(* the same contributions with the values of a repeated class / style / listener in another order *)
+Fixpoint remove_node (x : node) (l : list node) : option (list node) :=
+  match l with
+  | [] => None
+  | y :: r => if node_eqb x y then Some r
+              else match remove_node x r with Some r' => Some (y :: r') | None => None end
+  end.
+Fixpoint nodes_perm (a b : list node) : bool :=
+  match a with
+  | [] => match b with [] => true | _ => false end
+  | x :: a' => match remove_node x b with Some b' => nodes_perm a' b' | None => false end
+  end.
+Definition contrib_eqb_values_perm (a b : contrib) : bool :=
+  match a, b with
+  | CKV k vs, CKV k' vs' => str_eqb k k' && nodes_perm vs vs'
+  | _, _ => contrib_eqb a b
+  end.
+Fixpoint contribs_eqb_values_perm (a b : list contrib) : bool :=
+  match a, b with
+  | [], [] => true
+  | x :: a', y :: b' => contrib_eqb_values_perm x y && contribs_eqb_values_perm a' b'
+  | _, _ => false
+  end.
+
 (* same contributions, possibly in another order *)
 Fixpoint remove_contrib (x : contrib) (l : list contrib) : option (list contrib) :=
   match l with
